@@ -311,36 +311,21 @@ Definition c09_inline_generic_class (L : lang) (pfx : str) (a : ralias) : option
   | _ => None
   end.
 
-(* Go converts acronyms in definition names and member / payload types, but not in alias targets and
-   const types (go.rs:191,205).  Spec-level statement of "the conversion changes this name", for
-   acronyms given in lower case: the capitalised acronym occurs followed by a non-lowercase character. *)
-Definition c09_capitalise (a : str) : str := match a with c :: r => aupper c :: r | [] => [] end.
-Fixpoint c09_acr_hit (pat s : str) : bool :=
+(* Go: acronyms_to_uppercase (go.rs:579) read as a specification.  Each configured acronym is first put in
+   PascalCase (go.rs:582 to_pascal_case, rename.rs:25: `_` dropped, the first letter and every letter after a `_`
+   upper-cased, the other letters lower-cased when the acronym is written all in upper case, kept otherwise:
+   id, Id and ID all give Id); every leftmost non-overlapping occurrence - searched in the ORIGINAL name - of
+   that form which is not followed by a lower-case letter is upper-cased in the result.  The conversion is NOT
+   idempotent (an upper-cased acronym can complete an occurrence of another one: xy, yZw turn XyZw into XYZw,
+   then XYZW).  (Proofs/C09_GoAcr.v: this IS the model's go_convert_acronyms_to_uppercase on ASCII input.) *)
+Fixpoint c09_pascal_go (tolow cap : bool) (s : str) : str :=
   match s with
-  | [] => false
-  | _ :: r => (starts_with pat s &&
-               match skipn (List.length pat) s with c :: _ => negb (is_alower c) | [] => true end &&
-               negb (str_eqb pat (str_upper_ascii pat)))
-              || c09_acr_hit pat r
+  | [] => []
+  | c :: r => if N.eqb c ch_us then c09_pascal_go tolow true r
+              else if cap then aupper c :: c09_pascal_go tolow false r
+              else (if tolow then alower c else c) :: c09_pascal_go tolow false r
   end.
-Definition c09_acr_changes (acrs : list str) (n : str) : bool :=
-  existsb (fun a => c09_acr_hit (c09_capitalise a) n) acrs.
-Definition c09_acronym_class (L : lang) (acrs : list str) (pos : c09_pos) (e : c09_entity) : option string :=
-  match L, pos with
-  | Go, (C9Alias | C9Const) =>
-    if c09_acr_changes acrs (original (c9e_id e)) || c09_acr_changes acrs (renamed (c9e_id e))
-    then Some "C09-go-acronym-target"%string else None
-  | _, _ => None
-  end.
-
-(* Go: acronyms_to_uppercase (go.rs:579) read as a specification, for acronyms given in lower case: every
-   leftmost non-overlapping occurrence - searched in the ORIGINAL name - of the capitalised acronym that is
-   not followed by a lower-case letter is upper-cased in the result.  The conversion is NOT idempotent (an
-   upper-cased acronym can complete an occurrence of another one: xy, yZw turn XyZw into XYZw, then XYZW).
-   The <Enum><Variant>Inner helper struct is DEFINED under conv (conv (Enum ++ Variant ++ Inner))
-   (go.rs:266 make_anonymous_struct_name, then write_struct) but REFERRED TO as
-   conv (conv (Enum ++ conv Variant ++ Inner)) (go.rs:330 converts the variant name first, go.rs:360 the whole
-   name again): the variant part gets one pass more at the reference. *)
+Definition c09_capitalise (a : str) : str := c09_pascal_go (str_eqb (str_upper_ascii a) a) true a.
 Fixpoint c09_acr_pass (fuel : nat) (pat orig cur : str) : str :=
   match fuel with
   | O => cur
@@ -357,6 +342,31 @@ Fixpoint c09_acr_pass (fuel : nat) (pat orig cur : str) : str :=
   end.
 Definition c09_acr_conv (acrs : list str) (name : str) : str :=
   fold_left (fun res a => c09_acr_pass (S (List.length name)) (c09_capitalise a) name res) acrs name.
+(* the conversion changes this name *)
+Definition c09_acr_changes (acrs : list str) (n : str) : bool := negb (str_eqb (c09_acr_conv acrs n) n).
+
+(* Go converts acronyms in definition names and in member / payload types, but not in alias targets and const
+   types (go.rs:191,205): a reference from there to an item whose DEFINITION name the conversion changes *)
+Definition c09_acronym_class (L : lang) (acrs : list str) (pos : c09_pos) (e : c09_entity) : option string :=
+  match L, pos with
+  | Go, (C9Alias | C9Const) =>
+    if c09_acr_changes acrs (match c09_def_which L (c9e_kind e) with C9Orig => original (c9e_id e) | C9Ren => renamed (c9e_id e) end)
+    then Some "C09-go-acronym-target"%string else None
+  | _, _ => None
+  end.
+(* ... and a generic parameter is declared unconverted (`type S[TId any] struct`, go.rs:228) but converted
+   where a field or a payload mentions it (`X TID`): a parameter whose name the conversion changes *)
+Definition c09_go_rewritten_pos (pos : c09_pos) : bool := match pos with C9Field | C9Payload => true | _ => false end.
+Definition c09_generic_acronym_class (L : lang) (acrs : list str) (tp : c09_tpos) (i : str) : option string :=
+  match L with
+  | Go => if c09_go_rewritten_pos (c9t_pos tp) && mem_str i (c9t_generics tp) && c09_acr_changes acrs i
+          then Some "C09-go-acronym-generic"%string else None
+  | _ => None
+  end.
+(* The <Enum><Variant>Inner helper struct is DEFINED under conv (conv (Enum ++ Variant ++ Inner))
+   (go.rs:266 make_anonymous_struct_name, then write_struct) but REFERRED TO as
+   conv (conv (Enum ++ conv Variant ++ Inner)) (go.rs:330 converts the variant name first, go.rs:360 the whole
+   name again): the variant part gets one pass more at the reference. *)
 Definition c09_inner_acronym_class (L : lang) (acrs : list str) (enum_orig variant_orig : str) : option string :=
   match L with
   | Go => let conv := c09_acr_conv acrs in
@@ -386,7 +396,8 @@ Definition c09_classes (L : lang) (pfx : str) (acrs : list str) (pd : parsed) : 
               flat_map (fun v => match v with
                                  | VAnon _ vsh => [c09_inner_acronym_class L acrs (original (eid sh)) (original (vid vsh))]
                                  | _ => []
-                                 end) (evariants sh)) (p_enums pd).
+                                 end) (evariants sh)) (p_enums pd) ++
+  flat_map (fun tp => map (fun fi => c09_generic_acronym_class L acrs tp (snd fi)) (c09_type_ids (c9t_type tp))) (c09_tposs pd).
 Definition known_C09 (L : lang) (pfx : str) (acrs : list str) (pd : parsed) : option string :=
   c09_first (c09_classes L pfx acrs pd).
 
@@ -429,9 +440,19 @@ Definition c09_ref_class (L : lang) (pfx : str) (acrs : list str) (pd : parsed) 
     (* a prefixed generic parameter inside a JvmInline value class *)
     match owner with
     | Some j =>
-      c09_first (map (fun a => if str_eqb (original (aid a)) (original (c9e_id j)) &&
-                                  existsb (fun g => str_eqb (c9_name r) (pfx ++ g)) (agenerics a)
-                               then c09_inline_generic_class L pfx a else None) (p_aliases pd))
+      match c09_first (map (fun a => if str_eqb (original (aid a)) (original (c9e_id j)) &&
+                                        existsb (fun g => str_eqb (c9_name r) (pfx ++ g)) (agenerics a)
+                                     then c09_inline_generic_class L pfx a else None) (p_aliases pd)) with
+      | Some k => Some k
+      | None =>
+        (* Go: a generic parameter of the owner, acronym-converted where a field / payload mentions it *)
+        match L with
+        | Go => if c09_go_rewritten_pos (c9_pos r) &&
+                   existsb (fun g => str_eqb (c09_acr_conv acrs g) (c9_name r) && c09_acr_changes acrs g) (c9e_generics j)
+                then Some "C09-go-acronym-generic"%string else None
+        | _ => None
+        end
+      end
     | None => None
     end
   end.
